@@ -149,6 +149,26 @@ def run(ctx):
                 hi, lo = rnd.choice([('p', 'q'), ('q', 'p')])
                 K = dict(K, L=[sorted(([hi] if rnd.random() < 0.75 else []) + ([lo] if rnd.random() < 0.2 else [])) for _ in range(K['n'])])
             fam_m.append({'K': K, 'f': (rnd.choice('EEEEA'), g)})
+    # recurrence / persistence formulas (fairness-like conjunctions of GF, G F over until/release, ...) on structures with
+    # several strongly connected components, tails and one-shot states
+    fam_r = []
+    for _ in range(700 if q else 12000):
+        r = rnd.random()
+        K = gen.multi_core_kripke(rnd)[0] if r < 0.35 else gen.core_tail_kripke(rnd)[0] if r < 0.6 else gen.rand_kripke(rnd, rnd.choice([4, 5, 6]), density=rnd.choice([0.2, 0.3]))
+        g = gen.recurrence_formulas(rnd)
+        f = (rnd.choice('EEA'), g)
+        if rnd.random() < 0.2:
+            f = ('A', ('G', ('imp', Q, ('not', ('E', g))))) if gen.temporal_count(g) <= 4 else f
+        fam_r.append({'K': K, 'f': f})
+    # generalised fairness under E on sparse structures with 5-7 states (a conjunction of recurrences is satisfiable only on a
+    # cycle that meets EVERY conjunct; one-shot states off the cycles must not count)
+    lits = [P, Q, ('not', P), ('not', Q)]
+    for _ in range(500 if q else 8000):
+        K = gen.rand_kripke(rnd, rnd.choice([5, 6, 7]), density=rnd.choice([0.12, 0.18, 0.25]))
+        k = rnd.choice([2, 2, 3])
+        g = ('and',) + tuple(('G', ('F', rnd.choice(lits))) for _i in range(k))
+        f = ('E', g) if rnd.random() < 0.8 else ('A', ('G', ('imp', rnd.choice(lits), ('not', ('E', g)))))
+        fam_r.append({'K': K, 'f': f})
     # long sibling quantified subformulas (their auxiliary names are long; one of them is often unsatisfiable)
     fam_long = []
     while len(fam_long) < (250 if q else 10000):
@@ -178,7 +198,7 @@ def run(ctx):
     fam_s = [{'K': rnd.choice(scope3), 'f': (rnd.choice('AE'), g)} for g in shp for _ in range(2 if q else 10)]
     fam_e = [dict(c, mode=rnd.choice(['text', 'raw'])) for c in gen.samp(rnd, fam_a + fam_c + fam_n, 1200 if q else 15000)]
     fam_t = [{'K': rnd.choice(scope3), 'f': (rnd.choice('AE'), gen.tall_path(rnd, rnd.randint(98, 130))), 'late_edge': False} for _ in range(16 if q else 200)]
-    fams = [('tall', fam_t), ('mixed-operand until', fam_m), ('scope2', fam_a), ('catalogue3', fam_b), ('nested', fam_c), ('nary', fam_n), ('next-negation', fam_x), ('shared-polarity', fam_s), ('long-siblings', fam_long), ('random', fam_d), ('text', fam_e)]
+    fams = [('tall', fam_t), ('mixed-operand until', fam_m), ('recurrence', fam_r), ('scope2', fam_a), ('catalogue3', fam_b), ('nested', fam_c), ('nary', fam_n), ('next-negation', fam_x), ('shared-polarity', fam_s), ('long-siblings', fam_long), ('random', fam_d), ('text', fam_e)]
     for _, fam in fams:
         for c in fam:
             c['logic'] = 'CTLS'
